@@ -3,6 +3,7 @@ package align
 import (
 	"fmt"
 	"sync"
+	"sync/atomic"
 )
 
 // * If SetTranslate(true):
@@ -196,6 +197,9 @@ func (p *phaser) Phase(orfs, seqs SeqBag) (phased chan PhasedSequence, err error
 
 	// All threads consuming sequences
 	var wg sync.WaitGroup
+	// Set by the first thread that encounters an error:
+	// tells the other threads to stop
+	var failed atomic.Bool
 	for cpu := 0; cpu < p.cpus; cpu++ {
 		wg.Add(1)
 		go func() {
@@ -211,16 +215,16 @@ func (p *phaser) Phase(orfs, seqs SeqBag) (phased chan PhasedSequence, err error
 				}
 
 				if ph.Err != nil {
-					err = inerr
+					failed.Store(true)
 					phased <- ph
 					return
 				} else if inerr != nil {
-					err = inerr
+					failed.Store(true)
 					ph.Err = inerr
 					phased <- ph
 					return
 				}
-				if err != nil {
+				if failed.Load() {
 					return
 				}
 				phased <- ph
